@@ -112,14 +112,37 @@ NEUTRAL_FLAVOUR[5] = (
     "exactly what new behaviour was added.")
 
 
+# round 6: the small commits.  Most changes to a repository are a few lines; both questions are asked at that size.
+SEED_FLAVOUR[6] = ("ROUND-SPECIFIC INSTRUCTIONS (they override the numbers above): produce FOUR variants a, b, c, d instead of two, and keep each one MINIMAL - at "
+                   "most three changed lines, ideally a single token: an operator or comparison (< vs <=, and vs or, == vs is), a constant, an index or slice "
+                   "bound, a mask or shift, a default value, a swapped argument, a dropped or reordered statement, a condition negated or loosened, an "
+                   "exception class, a missing await / return / break. The four must be at four different places of the responsible code and of four "
+                   "different kinds. The other requirements stand: each must break the property for some input / schedule / history, keep the 65 tests "
+                   "passing, and come with its own patch.diff, demo.py (fails with the patch, passes without) and a three-line notes.md.")
+NEUTRAL_FLAVOUR[6] = (
+    "ROUND-SPECIFIC INSTRUCTIONS (they override the numbers above): produce FIVE variants r1..r5 instead of three, and keep each one SMALL - two to eight "
+    "changed lines, the size of an everyday commit. Five different kinds, for example:\n"
+    "  r1  a local rename, a changed log / exception message text, an added comment, docstring or type hint;\n"
+    "  r2  an equivalent rewrite of one expression or condition (De Morgan, `not x < y` vs `x >= y`, `len(x) == 0` vs `not x`, a named constant for a "
+    "literal, an f-string for %-formatting, a hoisted sub-expression, a chained comparison);\n"
+    "  r3  two independent statements swapped, an early return turned into an if / else or the reverse, a loop `for` vs `while` or a comprehension for "
+    "a three-line loop;\n"
+    "  r4  a defensive addition that can never change an outcome for the inputs the property quantifies over (an assert of something already guaranteed, "
+    "an explicit `else: pass`, an `int()` around an int, an extra but implied check placed where it rejects nothing new);\n"
+    "  r5  a tiny piece of new, unrelated functionality next to the responsible code (a `__repr__`, a read-only property, a debug log line, a counter).\n"
+    "Each must leave everything the property states exactly as it is, keep the 65 tests passing, and come with its own patch.diff and a two-line notes.md "
+    "(a single shared check.py for all five is enough).")
+
+
 def sh(cmd):
     return subprocess.run(cmd, shell=True, capture_output=True, text=True)
 
 
 VERIF = os.path.dirname(os.path.dirname(os.path.abspath(__file__)))
 BASELINE = json.load(open("/root/.vp/BASELINE.json"))["stable_pass"]
-LETTERS = {3: {"a": "e", "b": "f"}, 4: {"a": "g", "b": "h"}, 5: {"a": "i", "b": "j"}}          # seeds: round -> variant -> suffix under /verif/seeded
-NUMBERS = {3: {"r1": "r8", "r2": "r9", "r3": "r10"}, 4: {"r1": "r11", "r2": "r12", "r3": "r13"}, 5: {"r1": "r14", "r2": "r15", "r3": "r16"}}
+LETTERS = {3: {"a": "e", "b": "f"}, 4: {"a": "g", "b": "h"}, 5: {"a": "i", "b": "j"}, 6: {"a": "k", "b": "l", "c": "m", "d": "n"}}          # seeds: round -> variant -> suffix under /verif/seeded
+NUMBERS = {3: {"r1": "r8", "r2": "r9", "r3": "r10"}, 4: {"r1": "r11", "r2": "r12", "r3": "r13"}, 5: {"r1": "r14", "r2": "r15", "r3": "r16"},
+           6: {"r1": "r17", "r2": "r18", "r3": "r19", "r4": "r20", "r5": "r21"}}
 
 
 def variants(root):
